@@ -30,6 +30,8 @@ func init() {
 			c17Pack(r)
 			compactionShape(r)
 			kvPutGrowsStore(r)
+			c12ResumeRestartsNextTable(r)
+			engineBuiltFromEffectiveConfig(r, "engine-built-from-effective-config")
 		},
 	})
 }
